@@ -1043,6 +1043,59 @@ def rule_count(chk, w):
         chk.fail("COUNT", "truncate_leaf/missing", "not found")
 
 
+def _parity(o, truth):
+    """('odd'|'even', x) when the comparison `o`, taken with the given truth, tests the lowest bit of x"""
+    if not (isinstance(o, tuple) and o[0] == "bin" and o[1] in ("Ne", "Eq")):
+        return None
+    for a, c in ((o[2], o[3]), (o[3], o[2])):
+        if c[0] == "const" and c[1] in (0, 1) and a[0] == "bin" and \
+                ((a[1] == "BitAnd" and ("const", 1) in (a[2], a[3])) or (a[1] == "Rem" and a[3] == ("const", 2))):
+            x = a[3] if a[2] == ("const", 1) else a[2]
+            odd = (c[1] == 1) == (o[1] == "Eq")
+            if not truth:
+                odd = not odd
+            return ("odd" if odd else "even", x)
+    return None
+
+
+def rule_parity(chk, w):
+    """COUNT (which removal applies): the last leaf of an MMR hangs directly under the root, so that
+    removing it is "drop the root, promote its left child", exactly when the number of leaves is odd; for
+    an even count the last leaf sits inside a complete subtree that has to be taken apart. The one-pop
+    shortcut of truncate_leaf must therefore be selected by the parity of the ROOT's leaf_count and the
+    general path by its complement."""
+    import guards
+
+    class Deep(defuse.DefUse):
+        MAXD = 60
+    try:
+        f = w.fn(TREE + "truncate_leaf")
+    except KeyError:
+        return
+    b = f.body
+    du = Deep(b)
+    cyc = sqlfx.cyclic_blocks(b)
+    for bb, t in _calls(b, r"Tree::<V>::pop$"):
+        got = []
+        for sw, v, _tb in guards.edge_conditions(b, bb):
+            tm = b.blocks[sw].term
+            tr = guards.truth(tm, v)
+            if tr is None or tm.discr is None or tm.discr.kind not in ("copy", "move"):
+                continue
+            pr = _parity(du.origin(tm.discr), tr)
+            if pr:
+                got.append((pr[0], defuse.show(defuse.strip_refs(pr[1]))))
+        want = "even" if bb in cyc else "odd"
+        root_count = [x for k, x in got if k == want and
+                      re.search(r"leaf_count\(.*resolve_link\(&\*arg0, \*arg0\.root\)", x)]
+        what = "the pop loop of the general path" if bb in cyc else "the one-pop shortcut"
+        if root_count:
+            chk.ok("COUNT", "truncate_leaf: %s runs only when the root's leaf_count is %s" % (what, want), sample=True)
+        else:
+            chk.fail("COUNT", "truncate_leaf/parity/%s" % want, "%s is not selected by the root's leaf_count being "
+                     "%s (tests found: %s)" % (what, want, got or "none"), t.span.loc())
+
+
 def rule_root(chk, w):
     for name in ("append_leaf", "truncate_leaf"):
         try:
@@ -1346,7 +1399,7 @@ def main(tier):
     chk.rule("COMBINE", "combine_inner field rule for all versions; impl delegation", floor=38)
     chk.rule("HASH", "combine/hash input, order and personalisation", floor=7)
     chk.rule("NODE", "combine_nodes left/right order at every call site", floor=6)
-    chk.rule("COUNT", "push/pop inverse; reported counts equal performed pushes/pops", floor=6)
+    chk.rule("COUNT", "push/pop inverse; reported counts equal performed pushes/pops", floor=8)
     chk.rule("ROOT", "root updated before every Ok, never before an Err", floor=6)
     chk.rule("VIEW", "storage access discipline; missing entry is an error", floor=17)
     chk.rule("RANGE", "read rejects the height ranges leaf_count panics on", floor=2)
@@ -1364,6 +1417,7 @@ def main(tier):
     rule_hash(chk, w)
     rule_node(chk, w)
     rule_count(chk, w)
+    rule_parity(chk, w)
     rule_root(chk, w)
     rule_view(chk, w)
     g_range = rule_range(chk, w)
